@@ -39,13 +39,13 @@ LEVEL_NOTE = (
     "basic indexing (the model and its specification are checked against them on every case); jax dtype promotion (table "
     "validated every run). Excluded by an explicit hypothesis of the dtype theorem (and false for the code): operands of "
     "different dtypes in a generic sum / Operator composition - recorded findings mixed-operand-dtypes, "
-    "adj-dtype-check-mixed. Not theorems: freeze/Function metadata (oracle only)."
+    "adj-dtype-check-mixed. Not theorems: DiagonalReplicated metadata (oracle only)."
 )
 PROP_MODULES = ["Scico.Props.C12"]
 EXTRA_TARGETS = ["Drv.Shape", "Drv.OpAlg"]
 DRIVER = "Shape"
 FILES = ["scico/numpy/util.py", "scico/linop/_func.py", "scico/operator/_operator.py", "scico/linop/_linop.py",
-         "scico/linop/_diag.py", "scico/linop/_matrix.py", "scico/operator/_stack.py"]
+         "scico/linop/_diag.py", "scico/linop/_matrix.py", "scico/operator/_stack.py", "scico/linop/_stack.py", "scico/function.py"]
 RULE = (
     "slices: every (n, start, stop, step) with n<=N, start/stop in [-B,B] or None, step in [-3,3] or None (step 0 = "
     "malformed stream), non-trivial when the slice selects >=1 position and is not the full forward slice. indexed_shape: "
@@ -438,6 +438,7 @@ def _part2(ctx):
         import opalg_stacks as S
 
         S.model_tie(ctx, env, om, ctx.n(40, 1200))
+        S.freeze_tie(ctx, env, om, ctx.n(60, 1500))
     finally:
         om.close()
 
